@@ -309,7 +309,7 @@ class Stabilizer(StateRepresentationBase):
         """
         self._tableau = sfc.partial_trace(
             self._tableau,
-            keep=qubit_positions,
+            keep=[i for i in range(self.n_qubits) if i not in qubit_positions],
             dims=self.n_qubits * [2],
             measurement_determinism=measurement_determinism,
         )
@@ -729,7 +729,7 @@ class MixedStabilizer(StateRepresentationBase):
                 p_i,
                 sfc.partial_trace(
                     t_i,
-                    keep=qubit_positions,
+                    keep=[i for i in range(self.n_qubits) if i not in qubit_positions],
                     dims=self.n_qubits * [2],
                     measurement_determinism=measurement_determinism,
                 ),
